@@ -8,7 +8,7 @@ import time
 from . import findings, symx
 from .skeletons import shape
 
-EVID = "/verif/evidence"
+EVID = "/verif/evidence" if not symx.SHADOW else os.path.join(symx.BUILD, "evidence")
 
 
 def values_record(sk, values):
